@@ -410,3 +410,20 @@ func Main(m *testing.M) {
 
 // ReplayPath is the -replay flag shared by all property packages.
 var ReplayPath = flag.String("replay", "", "replay file to run (TestReplay)")
+
+// AddEvaluations credits n further evaluations (of which nt non-trivial, made distinct by
+// key) to prop name: for checks that enumerate many sub-cases (cut points, crash points)
+// inside one generated case.
+func AddEvaluations(name string, n, nt int, key string) {
+	mu.Lock()
+	defer mu.Unlock()
+	r := recs[name]
+	if r == nil {
+		return
+	}
+	r.Evaluations += n
+	r.NonTrivial += nt
+	for i := 0; i < nt; i++ {
+		r.Hashes[hashOf([]byte(fmt.Sprintf("%s#%d", key, i)))] = true
+	}
+}
